@@ -7,8 +7,8 @@
   are NOT modelled (DESIGN §3): for them the property is only evaluated by the `o.c33` oracle on the
   real compiler. Modelled (lean/VrlModel/Spans.lean, tied to the code by the `c33.*` correspondence
   ops) are the span producers that do arithmetic; for those this file states `ProducersSpec` (the
-  full statement, FALSE of the code — witnesses in VrlProofs/Witness/C33.lean) and proves what
-  holds:
+  full statement, FALSE of the code in its first two clauses — witnesses in
+  VrlProofs/Witness/C33.lean) and proves what holds:
 
   verify_overwritable (assignment.rs)
     overwritable_bounds            all inputs: segment_span is ordered and inside the source,
@@ -27,11 +27,12 @@
     lex_string_label_range         all sources: a top-level string-literal error label is
                                    non-empty, ordered and inside the source
     lex_string_wf_partial          ASCII-only sources: that label is fully WF
-    lex_string_wf_utf8_partial     every UTF-8 source: fully WF unless the error is an invalid escape
-                                   with a non-ASCII character (exact complement of D_lexer_char_span)
-    lex_nested_wf_partial          nested lexer of the query look-ahead: WF unless D_lexer_char_span or
-                                   "unterminated string" (label one past the quote: D_eof_span)
+    lex_string_wf_utf8             every UTF-8 source: fully WF, no exception (since /repo 45c5794;
+                                   before, class D_lexer_char_span had to be excluded)
+    lex_nested_wf                  nested lexer of the query look-ahead: fully WF, no exception (since
+                                   /repo 694e815 + 45c5794; before: D_eof_span, D_lexer_char_span)
     lex_quoted_wf                  all sources: the label of an unterminated s'/r'/t' literal is WF
+    lexSpec_holds                  the lexer clause of `ProducersSpec` is now a theorem
 -/
 import VrlProofs.Lemmas.C33
 
@@ -40,8 +41,10 @@ open Spans
 
 /-- The property restricted to the modelled producers, at full strength: whatever the kind check
     answers and whatever the path is, the spans reported by `verify_overwritable` for a
-    well-formed target span are well-formed; same for `assignment_span` and the lexer labels.
-    This is FALSE of the code: `Witness/C33.lean` proves `¬ ProducersSpec` clause by clause. -/
+    well-formed target span are well-formed; same for `assignment_span` and the lexer labels (of
+    UTF-8 sources). The first two clauses are FALSE of the code (`Witness/C33.lean`:
+    `not_overwritableSpec`, `not_assignmentSpec`); the lexer clause was false too and HOLDS since
+    the repairs /repo 45c5794 + 694e815 (`lexSpec_holds`). -/
 def OverwritableSpec : Prop :=
   ∀ (src : List Nat) (valid : Nat → Bool) (target : Span) (segs : List Seg) (x : Span × Span),
     WF src target → verifyOverwritable valid target segs = some x → WF src x.1 ∧ WF src x.2
@@ -52,7 +55,7 @@ def AssignmentSpec : Prop :=
     assignmentSpan target expr = .ok s → WF src s
 
 def LexSpec : Prop :=
-  ∀ (src : List Nat) (e : LexErr), lexFirst src = some (.error e) → WF src e.label
+  ∀ (src : List Nat) (e : LexErr), wfUtf8 src = true → lexFirst src = some (.error e) → WF src e.label
 
 def ProducersSpec : Prop := OverwritableSpec ∧ AssignmentSpec ∧ LexSpec
 
@@ -153,19 +156,19 @@ theorem lex_string_label_range (src : List Nat) (e : LexErr) (hne : src ≠ [])
   exact scanString_label_range src.length 0 hlen _ .normal 0 e (PosOK_tail hp) (Nat.zero_le _)
     (by simp [StOK]) h
 
-/-- ASCII-only sources: that label is well-formed. For other sources it is not
-    (`witness_lexer_char_span`: the offending escape character is multi-byte). -/
+/-- ASCII-only sources: that label is well-formed (special case of `lex_string_wf_utf8`, kept
+    because it needs no UTF-8 reasoning). -/
 theorem lex_string_wf_partial (src : List Nat) (e : LexErr) (hne : src ≠ [])
     (ha : ∀ b ∈ src, b < 128) (h : lexStringAt0 src = .error e) : WF src e.label := by
   have hr := lex_string_label_range src e hne h
   exact ⟨by omega, hr.2, ascii_boundary ha (by omega), ascii_boundary ha hr.2⟩
 
-/-- every (UTF-8) source: the label of a top-level string-literal error is well-formed UNLESS the
-    error is an invalid escape whose offending character is not ASCII (`LexErr.splitsChar`, finding
-    class D_lexer_char_span). This is the exact complement of that class. -/
-theorem lex_string_wf_utf8_partial (tl : List Nat) (e : LexErr) (hu : wfUtf8 (34 :: tl) = true)
-    (h : lexStringAt0 (34 :: tl) = .error e) (hcl : e.splitsChar = false) :
-    WF (34 :: tl) e.label := by
+/-- every UTF-8 source (since /repo 45c5794, without exception): the label of a top-level
+    string-literal error (E207, E209, E211) is well-formed. Before the repair the class
+    D_lexer_char_span (invalid escape with a non-ASCII character, label one byte wide) had to be
+    excluded; the label is now `(start, start + len_utf8(ch))`. -/
+theorem lex_string_wf_utf8 (tl : List Nat) (e : LexErr) (hu : wfUtf8 (34 :: tl) = true)
+    (h : lexStringAt0 (34 :: tl) = .error e) : WF (34 :: tl) e.label := by
   have hu' : wfUtf8 tl = true := by
     unfold wfUtf8 at hu; simpa using hu
   have hc : Chain (34 :: tl) 1 (charIndicesFrom 1 tl) := by
@@ -178,45 +181,44 @@ theorem lex_string_wf_utf8_partial (tl : List Nat) (e : LexErr) (hu : wfUtf8 (34
     rfl
   unfold lexStringAt0 at h
   rw [hdrop] at h
-  exact scanString_label_wf (34 :: tl) 0 rfl hs.2.1 (by simp) _ .normal 1 e hc (by simp [StB]) h hcl
+  exact scanString_label_wf (34 :: tl) 0 rfl hs.2.1 (by simp) _ .normal 1 e hc (by simp [StB]) h
 
 theorem offsetBy_label (e : LexErr) (o : Nat) :
     (e.offsetBy o).label = ⟨e.label.start + o, e.label.stop + o⟩ := by
-  cases e <;> simp [LexErr.offsetBy, LexErr.label] <;> omega
+  cases e with
+  | escapeChar s ch => cases ch <;> simp [LexErr.offsetBy, LexErr.label] <;> omega
+  | _ => simp [LexErr.offsetBy, LexErr.label] <;> omega
 
-/-- the nested lexer of `query_start` (string opened at byte `pos` inside a delimited region):
-    every error label is well-formed EXCEPT in the classes D_lexer_char_span (`splitsChar`) and
-    "unterminated string" — whose label `(pos + 1, pos + 2)` points one past the opening quote
-    (D_eof_span: past the end / inside the first character of the string). -/
-theorem lex_nested_wf_partial (src : List Nat) (pos : Nat) (e : LexErr)
-    (hpos : pos + 1 ≤ src.length) (hu : wfUtf8 (src.drop (pos + 1)) = true)
-    (h : lexNestedString src pos = .error e) (hcl : e.splitsChar = false)
-    (hs : ∀ s, e ≠ .stringLiteral s) : WF src e.label := by
+/-- the nested lexer of `query_start` (string whose opening quote is byte `pos`, inside a
+    delimited region; since /repo 694e815 and 45c5794, without exception): every error label is
+    well-formed. Before the repairs "unterminated string" was reported at `(pos + 1, pos + 2)`,
+    one past the quote (D_eof_span), and D_lexer_char_span applied here too. -/
+theorem lex_nested_wf (src : List Nat) (pos : Nat) (e : LexErr)
+    (hq : src[pos]? = some 34) (hu : wfUtf8 (src.drop (pos + 1)) = true)
+    (h : lexNestedString src pos = .error e) : WF src e.label := by
+  have hpos : pos + 1 ≤ src.length := by
+    have := (List.getElem?_eq_some_iff.mp hq).1; omega
   unfold lexNestedString at h
   generalize hsub : src.drop (pos + 1) = sub at h hu
-  cases hscan : scanString sub.length 0 .normal (charIndices sub) with
-  | ok v => simp [hscan] at h
-  | error e0 =>
-    simp only [hscan] at h
-    cases h
-    have hcl0 : e0.splitsChar = false := by
-      cases e0 with
-      | escapeChar st ch =>
-        cases ch with
-        | none => rfl
-        | some c => simpa [LexErr.offsetBy, LexErr.splitsChar] using hcl
-      | _ => rfl
-    have hc : Chain sub 0 (charIndices sub) := by
-      have := chain_charIndicesFrom 0 sub [] rfl hu
-      simpa [charIndices] using this
-    have hsrc : src.take (pos + 1) ++ sub = src := by rw [← hsub]; exact List.take_append_drop _ _
-    have hlen : (src.take (pos + 1)).length = pos + 1 := by simp; omega
-    rcases scanString_label_wf' sub 0 _ .normal 0 e0 hc (by simp [StB]) hscan hcl0 with h1 | h1
-    · subst h1; exact absurd rfl (hs _)
+  have hsrc : src.take (pos + 1) ++ sub = src := by rw [← hsub]; exact List.take_append_drop _ _
+  have hlen : (src.take (pos + 1)).length = pos + 1 := by simp; omega
+  have hb1 : isCharBoundary src (pos + 1) = true := by
+    have := (chain_start (chain_charIndicesFrom (pos + 1) sub (src.take (pos + 1)) hlen hu)).2.1
+    rwa [hsrc] at this
+  have hstr : WF src (LexErr.stringLiteral pos).label :=
+    ⟨by simp [LexErr.label], by simpa [LexErr.label] using hpos, boundary_of_ascii hq (by omega), hb1⟩
+  have hc : Chain sub 0 (charIndices sub) := by
+    have := chain_charIndicesFrom 0 sub [] rfl hu
+    simpa [charIndices] using this
+  have gen : ∀ e0, scanString sub.length 0 .normal (charIndices sub) = .error e0 →
+      (∀ s, e0 ≠ .stringLiteral s) → WF src (e0.offsetBy (pos + 1)).label := by
+    intro e0 hscan hs
+    rcases scanString_label_wf' sub 0 _ .normal 0 e0 hc (by simp [StB]) hscan with h1 | h1
+    · exact absurd h1 (hs _)
     · have hne : sub ≠ [] := by
         intro hnil; subst hnil
         simp [charIndices, charIndicesFrom, scanString] at hscan
-        subst hscan; exact absurd rfl (hs _)
+        exact absurd hscan.symm (hs _)
       have hpos' : 0 < sub.length := List.length_pos_iff.mpr hne
       have hp : PosOK sub.length 0 (charIndices sub) := by
         have := posOK_charIndicesFrom 0 sub
@@ -226,6 +228,21 @@ theorem lex_nested_wf_partial (src : List Nat) (pos : Nat) (e : LexErr)
       have := WF_shift (src.take (pos + 1)) sub hu e0.label h1 hr.1
       rw [hsrc, hlen] at this
       rw [offsetBy_label]; exact this
+  cases hscan : scanString sub.length 0 .normal (charIndices sub) with
+  | ok v => simp [hscan] at h
+  | error e0 =>
+    simp only [hscan] at h
+    cases e0 with
+    | stringLiteral s => simp only [LexErr.offsetBy] at h; cases h; exact hstr
+    | literal s =>
+      simp only [LexErr.offsetBy] at h; cases h
+      exact gen _ hscan (by intro s hh; cases hh)
+    | escapeChar s ch =>
+      simp only [LexErr.offsetBy] at h; cases h
+      exact gen _ hscan (by intro s hh; cases hh)
+    | unicodeEscape s t =>
+      simp only [LexErr.offsetBy] at h; cases h
+      exact gen _ hscan (by intro s hh; cases hh)
 
 /-- all sources: an unterminated `s'…`, `r'…`, `t'…` literal at the start of the source is
     reported at `(0, 1)`, which is well-formed. -/
@@ -236,5 +253,33 @@ theorem lex_quoted_wf (c : Nat) (rest : List Nat) (e : LexErr)
   subst this
   refine ⟨by simp [LexErr.label], by simp [LexErr.label], rfl, ?_⟩
   simp [LexErr.label, isCharBoundary, isCont]
+
+theorem wfUtf8_cons_ascii {b : Nat} {tl : List Nat} (hb : b < 128) (h : wfUtf8 (b :: tl) = true) :
+    wfUtf8 tl = true := by
+  unfold wfUtf8 at h; simpa [hb] using h
+
+/-- the lexer clause of `ProducersSpec` now HOLDS (for every UTF-8 source and every entry shape
+    of `lexFirst`): after the two repairs no modelled lexer error has an ill-formed label. -/
+theorem lexSpec_holds : LexSpec := by
+  intro src e hu h
+  unfold lexFirst at h
+  split at h
+  · simp only [Option.some.injEq] at h
+    exact lex_string_wf_utf8 _ e hu h
+  · split at h
+    · simp only [Option.some.injEq] at h
+      exact lex_quoted_wf _ _ e h
+    · cases h
+  · simp only [Option.some.injEq] at h
+    exact lex_nested_wf _ 2 e rfl
+      (wfUtf8_cons_ascii (by omega) (wfUtf8_cons_ascii (by omega) (wfUtf8_cons_ascii (by omega) hu))) h
+  · simp only [Option.some.injEq] at h
+    exact lex_nested_wf _ 2 e rfl
+      (wfUtf8_cons_ascii (by omega) (wfUtf8_cons_ascii (by omega) (wfUtf8_cons_ascii (by omega) hu))) h
+  · simp only [Option.some.injEq] at h
+    exact lex_nested_wf _ 3 e rfl
+      (wfUtf8_cons_ascii (by omega) (wfUtf8_cons_ascii (by omega)
+        (wfUtf8_cons_ascii (by omega) (wfUtf8_cons_ascii (by omega) hu)))) h
+  · cases h
 
 end C33
